@@ -146,6 +146,22 @@ CLAIMED = {
        "(fake open(), fake objects); OS file semantics vs BytesIO are not modelled.",
   technique="Lean 4 proof (decision logic of the file-argument resolution) + cross-kind differential on the real code",
   ref="DESIGN.md §5 C17"),
+ "C10": dict(
+  text="Lean 4 theorems (Props/C10.lean) over a byte-level model of MP4Tags.save's region replacement (parse, _find_padding, region, "
+       "__update_parents, __update_offset_table, __update_tfhd) and an atom-tree specification (render / strict walk): splice_bytes and "
+       "splice_offsets_follow - an offset patched by the code's rule reads the same bytes after the splice (with the decidable side condition "
+       "Clear, shown necessary by splice_offsets_boundary); walk_render - the strict walker inverts rendering for all well-formed trees incl. "
+       "64-bit sizes and the meta version field; parent_sizes - for any nested path, any siblings and any surrounding bytes, splice + parent "
+       "size patching yields exactly the rendering of the tree with the new atoms in place; chunk_offsets_follow_partial - if the modelled "
+       "save finishes on ANY byte string with one moov, at most one moof and SaveSafe tables, every stco/co64 entry and tfhd base offset is "
+       "the patched old value and addresses the same media bytes. Partial: several moof, size-0 last atom, wide (64-bit header) tables and "
+       "ilst-first/free-last layouts are outside the theorem's hypotheses - they are exactly the recorded findings, stated as "
+       "counterexample theorems on the model and replayed on the real code on every run.",
+  note="Trusted: Lean kernel; standard axioms; the hand-written model of mp4/__init__.py and mp4/_atom.py, compared byte for byte with the real "
+       "save (including saves that raise midway) on every generated layout; _CONTAINERS/_SKIP_SIZE compared with the imported module on every run; "
+       "the independent Python walker as oracle for sample files.",
+  technique="Lean 4 proof (splice/offset arithmetic, tree render/walk inversion, parent-size refinement, byte-level save theorem) + byte-for-byte model/implementation correspondence",
+  ref="DESIGN.md §5 C10"),
  "C12": dict(
   text="Lean 4 theorems (Props/C12.lean, 39 theorems) over a model of every ID3 spec kind, of frame read/write and of the frame-flag handling, "
        "instantiated on the frame table REGENERATED from mutagen/id3/_frames.py on every run (Generated/Id3Table.lean, 176 classes): "
